@@ -31,14 +31,12 @@ Proof. intros Hd Hs. unfold step_f. rewrite Hs, Hd. reflexivity. Qed.
 Lemma src_phase flt junk c ds now dst : c_dry_run c = false ->
   forall todo done m errs evs,
     src_wf (done ++ todo) ->
-    (forall e, In e (done ++ todo) -> se_is_dir e = true -> forall cc s t, dst (se_path e) <> Some (File cc s t)) ->
-    (forall e, In e (done ++ todo) -> se_is_dir e = false -> dst (se_path e) <> Some Dir) ->
     (forall e, In e done -> post c ds now dst m e \/ errored errs (se_path e)) ->
     (forall e, In e todo -> m (se_path e) = dst (se_path e) \/ (se_is_dir e = true /\ m (se_path e) = Some Dir)) ->
     let s' := fold_left (step_f flt junk c now) (map (plan_entry c ds dst) todo) (m, errs, evs) in
     forall e, In e (done ++ todo) -> post c ds now dst (fst (fst s')) e \/ errored (snd (fst s')) (se_path e).
 Proof.
-  intros Hdry. induction todo as [|e0 todo IH]; intros done m errs evs Hwf Hnf Hnd2 Hdone Htodo s' e He.
+  intros Hdry. induction todo as [|e0 todo IH]; intros done m errs evs Hwf Hdone Htodo s' e He.
   - subst s'. cbn. rewrite app_nil_r in He. apply Hdone. exact He.
   - subst s'. cbn [map fold_left].
     destruct (plan_entry_ok c ds dst e0) as (Hok & Hnd & Hp).
@@ -49,10 +47,6 @@ Proof.
     { intros e1 H1 Eq. unfold paths_of in Hnd_paths. rewrite map_app in Hnd_paths. cbn [map] in Hnd_paths.
       apply NoDup_remove_2 in Hnd_paths. apply Hnd_paths. rewrite <- Eq. rewrite <- map_app. apply in_map. exact H1. }
     assert (Hin0 : In e0 (done ++ e0 :: todo)) by (apply in_or_app; right; left; reflexivity).
-    assert (Hnf' : forall e1, In e1 ((done ++ [e0]) ++ todo) -> se_is_dir e1 = true -> forall cc s t, dst (se_path e1) <> Some (File cc s t))
-      by (intros e1 H1; apply Hnf; rewrite <- app_assoc in H1; exact H1).
-    assert (Hnd2' : forall e1, In e1 ((done ++ [e0]) ++ todo) -> se_is_dir e1 = false -> dst (se_path e1) <> Some Dir)
-      by (intros e1 H1; apply Hnd2; rewrite <- app_assoc in H1; exact H1).
     (* what a step that records an error for e0 and changes at most e0's own (file) path preserves *)
     assert (Hfail : forall m1 errs1, (forall q, q <> se_path e0 -> m1 q = m q) -> (se_is_dir e0 = true -> m1 = m) ->
                       errored errs1 (se_path e0) -> (forall p, errored errs p -> errored errs1 p) ->
@@ -74,22 +68,22 @@ Proof.
       * intro Hd. unfold fault_effect. rewrite Esrc, Hd. reflexivity.
       * eexists _, _. left. reflexivity.
       * intros p (a & y & Hin). exists a, y. right. exact Hin.
-      * apply (IH (done ++ [e0]) _ _ evs Hwf' Hnf' Hnd2' Hd' Ht' e He').
+      * apply (IH (done ++ [e0]) _ _ evs Hwf' Hd' Ht' e He').
     + destruct (exec_task c now m (plan_entry c ds dst e0)) as [m1|x] eqn:E0.
       * (* the task succeeds: as in the fault-free run *)
-        apply (IH (done ++ [e0]) m1 errs _ Hwf' Hnf' Hnd2'); [| | exact He'].
+        apply (IH (done ++ [e0]) m1 errs _ Hwf'); [| | exact He'].
         -- intros e1 H1. apply in_app_or in H1. destruct H1 as [H1|[H1|[]]].
            ++ destruct (Hdone e1 H1) as [(y & Hy & Hg)|Hbad]; [left | right; exact Hbad]. exists y. split; [|exact Hg].
               eapply exec_task_keeps; try eassumption. rewrite Hp. apply Hdistinct. apply in_or_app. left. exact H1.
            ++ subst e1. left. destruct (se_is_dir e0) eqn:Hd.
               ** exists Dir. split; [|unfold good; rewrite Hd; reflexivity].
-                 eapply own_task_dir; try eassumption; [intros; eapply Hnf; eassumption|].
+                 eapply own_task_dir; try eassumption.
                  destruct (Htodo e0 (or_introl eq_refl)) as [H|[_ H]]; [left|right]; exact H.
               ** destruct (Htodo e0 (or_introl eq_refl)) as [Hm|[Hcontra _]]; [|congruence].
                  pose proof (own_task_file c ds now dst m m1 e0 Hdry Hd Hm E0) as Hown. unfold post, good. rewrite Hd.
                  destruct (needs c ds dst e0) eqn:En.
                  --- unfold file_post in Hown. eexists. split; [exact Hown | reflexivity].
-                 --- destruct (skip_means_file c ds dst e0 Hd (Hnd2 e0 Hin0 Hd) En) as (dc & dsz & dmt & Ed). exists (File dc dsz dmt). rewrite Hown, Ed. split; reflexivity.
+                 --- destruct (skip_means_file c ds dst e0 Hd En) as (dc & dsz & dmt & Ed). exists (File dc dsz dmt). rewrite Hown, Ed. split; reflexivity.
         -- intros e1 H1.
            assert (Hin1 : In e1 (done ++ e0 :: todo)) by (apply in_or_app; right; right; exact H1).
            assert (Hq : se_path e1 <> t_path (plan_entry c ds dst e0)).
@@ -108,7 +102,7 @@ Proof.
         -- intros _. reflexivity.
         -- eexists _, _. left. reflexivity.
         -- intros p (a & y & Hin). exists a, y. right. exact Hin.
-        -- apply (IH (done ++ [e0]) _ _ evs Hwf' Hnf' Hnd2' Hd' Ht' e He').
+        -- apply (IH (done ++ [e0]) _ _ evs Hwf' Hd' Ht' e He').
 Qed.
 
 (* ---------- the deletions that follow ---------- *)
@@ -135,13 +129,11 @@ Qed.
 (* ---------- containment: whatever fails, every entry without an error of its own ends up as C01 requires ---------- *)
 Lemma exec_f_post flt junk ds c now src dst dels :
   src_wf src -> c_dry_run c = false ->
-  (forall e, In e src -> se_is_dir e = true -> forall cc s t, dst (se_path e) <> Some (File cc s t)) ->
-  (forall e, In e src -> se_is_dir e = false -> dst (se_path e) <> Some Dir) ->
   (forall t, In t dels -> del_task_ok src t) ->
   forall r, r = exec_all_f flt junk c now dst (map (plan_entry c ds dst) src ++ dels) ->
   forall e, In e src -> (forall a x, ~ In (se_path e, a, x) (r_errors r)) -> post c ds now dst (r_fs r) e.
 Proof.
-  intros Hwf Hdry Hnf Hnd2 Hd r Er e He Hnoerr. subst r. revert Hnoerr. unfold exec_all_f. rewrite fold_left_app.
+  intros Hwf Hdry Hd r Er e He Hnoerr. subst r. revert Hnoerr. unfold exec_all_f. rewrite fold_left_app.
   match goal with |- context [fold_left ?f dels ?init] => remember init as s1 eqn:Es1; remember (fold_left f dels s1) as s2 eqn:Es2 end.
   intro Hnoerr.
   assert (H1 : post c ds now dst (fst (fst s1)) e \/ errored (snd (fst s1)) (se_path e)).
@@ -155,13 +147,11 @@ Qed.
 
 Theorem run_f_post flt junk refuse ds c now U keep src dst :
   src_wf src -> c_dry_run c = false -> dst [] = None ->
-  (forall e, In e src -> se_is_dir e = true -> forall cc s t, dst (se_path e) <> Some (File cc s t)) ->
-  (forall e, In e src -> se_is_dir e = false -> dst (se_path e) <> Some Dir) ->
   let r := run_f flt junk refuse ds c now U keep src dst in
   r_refused r = false ->
   forall e, In e src -> (forall a x, ~ In (se_path e, a, x) (r_errors r)) -> post c ds now dst (r_fs r) e.
 Proof.
-  intros Hwf Hdry Hroot Hnf Hnd2. unfold run_f. cbv zeta.
+  intros Hwf Hdry Hroot. unfold run_f. cbv zeta.
   destruct (c_delete c && negb (c_force_delete c) && _ && _) eqn:Eb; [cbn; discriminate|].
   intros _ e He Hnoerr. eapply exec_f_post; try eassumption; [|reflexivity].
   intros t Ht. destruct (c_delete c); [|destruct Ht].
